@@ -203,9 +203,10 @@ def _run_tempo(op, d, v, syskind, statekind, mem, unique, eps, subdiv="default")
     return {"times": np.array(dyn.times), "states": np.array(dyn.states), "fields": None}
 
 
-def _build_pt(op, mem, unique, eps):
+def _build_pt(op, mem, unique, eps, file_backed=False):
     bath = oq.Bath(op, correlations())
-    return oq.pt_tempo_compute(bath, START, END, parameters(mem, eps), unique=unique, progress_type="silent")
+    kw = {"process_tensor_file": True} if file_backed else {}       # True: PT-TEMPO writes into a temporary HDF5 file
+    return oq.pt_tempo_compute(bath, START, END, parameters(mem, eps), unique=unique, progress_type="silent", **kw)
 
 
 def run_pt(pt, d, v, syskind, statekind, subdiv="default"):
